@@ -6,6 +6,7 @@ import sys
 EVENTS = []
 SPEC = {}
 FAULT = None
+ON_PARSE = None  # optional callback(source text, tokens) run at the moment the parser returns
 PLUGIN_DIR = os.path.join(os.path.dirname(os.path.abspath(__file__)), "plugins")
 MODULES = ("vfrec_first", "vfrec_last", "vfrec_off", "_vfrec_common")
 
@@ -47,6 +48,9 @@ def install_wrappers():
             EVENTS.append(("PARSE-ERR", type(e).__name__))
             raise
         EVENTS.append(("PARSE", list(toks), getattr(source_provider, "_vf_text", None), getattr(source_provider, "_vf_path", None)))
+        if ON_PARSE is not None:
+            # monitors must look at the tokens *now*: fix mode edits token objects in place afterwards
+            ON_PARSE(getattr(source_provider, "_vf_text", None), toks)
         return toks
 
     TokenizedMarkdown.transform_from_provider = tfp
